@@ -29,6 +29,7 @@ RULE = (
     'edit touches a tagged argument.'
 )
 RULE += (' ' + 'Also generated: tags on value-less positional-only parameters of a callable without **kwargs (also at the root), set nodes and plain attribute-holder objects as mutable leaves (deep copies must not share them; they are mutated on the copy).')
+RULE += (' ' + 'Rounds 3-5: experimental DictConfig / NamespaceConfig nodes (keys also set by attribute, one named kwargs).')
 ASSUMPTIONS = [
     'in-place mutation of argument values is only applied to deep copies (shallow copies share values by design)',
     'built graphs compared by canonical form with behavioural probing of partials',
